@@ -39,6 +39,7 @@ type VT struct {
 	Fields  []*Field `json:"fields,omitempty"`
 	Bad     string   `json:"bad,omitempty"` // unconvertible host data: nil | chan | mixed
 	Arr     bool     `json:"arr,omitempty"` // list materialised as a Go array instead of a slice
+	Dyn     bool     `json:"dyn,omitempty"` // non-empty list / map: the static Go element type is interface{} ([]interface{}, [N]interface{}, map[K]interface{}), so the Go type says nothing about the element type
 }
 
 type Field struct {
@@ -141,7 +142,11 @@ func init() {
 
 var stampLoc = time.FixedZone("X", 3600)
 
-func (v *VT) goType() reflect.Type {
+// goType: the Go type of the materialised value. dyn=false gives the STATIC reading (what the
+// Go type of an empty or absent container of this prototype would be): Dyn is ignored all the way down.
+func (v *VT) goType() reflect.Type { return v.goTypeD(true) }
+
+func (v *VT) goTypeD(dyn bool) reflect.Type {
 	switch v.K {
 	case "num":
 		if t, ok := numKinds[v.NumKind]; ok {
@@ -157,26 +162,38 @@ func (v *VT) goType() reflect.Type {
 	case "stamp":
 		return reflect.TypeOf(Stamp{})
 	case "list":
-		if v.Arr {
-			return reflect.ArrayOf(len(v.List), v.Proto.goType())
+		et := v.Proto.goTypeD(false)
+		if dyn && v.Dyn && len(v.List) > 0 {
+			et = ifaceType
 		}
-		return reflect.SliceOf(v.Proto.goType())
+		if v.Arr {
+			return reflect.ArrayOf(len(v.List), et)
+		}
+		return reflect.SliceOf(et)
 	case "map":
 		kt := reflect.TypeOf("")
 		if v.KeyK == "num" {
 			kt = reflect.TypeOf(int(0))
 		}
-		return reflect.MapOf(kt, v.Proto.goType())
+		et := v.Proto.goTypeD(false)
+		if dyn && v.Dyn && len(v.MapK) > 0 {
+			et = ifaceType
+		}
+		return reflect.MapOf(kt, et)
 	case "obj":
-		return structType(v.Fields)
+		return structTypeD(v.Fields, dyn)
 	}
 	panic("goType " + v.K)
 }
 
-func structType(fs []*Field) reflect.Type {
+var ifaceType = reflect.TypeOf((*interface{})(nil)).Elem()
+
+func structType(fs []*Field) reflect.Type { return structTypeD(fs, true) }
+
+func structTypeD(fs []*Field, dyn bool) reflect.Type {
 	sf := make([]reflect.StructField, len(fs))
 	for i, f := range fs {
-		t := f.V.goType()
+		t := f.V.goTypeD(dyn && !f.Nil && !f.NilC)
 		if f.Ptr || f.Maybe || f.Nil {
 			t = reflect.PtrTo(t)
 		}
@@ -244,8 +261,13 @@ func exportable(s string) string {
 	return b.String()
 }
 
-func (v *VT) goValue() reflect.Value {
-	t := v.goType()
+func (v *VT) goValue() reflect.Value { return v.goValueD(true) }
+
+// goValueD: elements of an interface-typed container may be dynamic themselves; elements of a
+// statically typed one have the static type of the prototype (dyn=false all the way down)
+func (v *VT) goValueD(dyn bool) reflect.Value {
+	t := v.goTypeD(dyn)
+	ed := dyn && v.Dyn && (len(v.List) > 0 || len(v.MapK) > 0)
 	rv := reflect.New(t).Elem()
 	switch v.K {
 	case "num":
@@ -268,13 +290,13 @@ func (v *VT) goValue() reflect.Value {
 	case "list":
 		if v.Arr {
 			for i, e := range v.List {
-				rv.Index(i).Set(e.goValue())
+				rv.Index(i).Set(e.goValueD(ed))
 			}
 			break
 		}
 		s := reflect.MakeSlice(t, len(v.List), len(v.List))
 		for i, e := range v.List {
-			s.Index(i).Set(e.goValue())
+			s.Index(i).Set(e.goValueD(ed))
 		}
 		rv.Set(s)
 	case "map":
@@ -286,22 +308,24 @@ func (v *VT) goValue() reflect.Value {
 			} else {
 				kv = reflect.ValueOf(k.Str)
 			}
-			m.SetMapIndex(kv, v.MapV[i].goValue())
+			m.SetMapIndex(kv, v.MapV[i].goValueD(ed))
 		}
 		rv.Set(m)
 	case "obj":
-		fillStruct(rv, v.Fields)
+		fillStructD(rv, v.Fields, dyn)
 	}
 	return rv
 }
 
-func fillStruct(rv reflect.Value, fs []*Field) {
+func fillStruct(rv reflect.Value, fs []*Field) { fillStructD(rv, fs, true) }
+
+func fillStructD(rv reflect.Value, fs []*Field, dyn bool) {
 	for i, f := range fs {
 		fv := rv.Field(i)
 		if f.Nil || f.NilC {
 			continue
 		}
-		val := f.V.goValue()
+		val := f.V.goValueD(dyn)
 		if f.Ptr || f.Maybe {
 			p := reflect.New(val.Type())
 			p.Elem().Set(val)
@@ -449,7 +473,7 @@ func (g *gen7) value(d int, ptrFree bool) *VT {
 	switch r.intn(8) {
 	case 0, 1:
 		proto := g.value(d-1, true)
-		v := &VT{K: "list", Proto: proto}
+		v := &VT{K: "list", Proto: proto, Dyn: r.chance(0.2)}
 		n := 1 + r.intn(3)
 		for i := 0; i < n; i++ {
 			v.List = append(v.List, g.like(proto))
@@ -457,7 +481,7 @@ func (g *gen7) value(d int, ptrFree bool) *VT {
 		return v
 	case 2:
 		proto := g.value(d-1, true)
-		v := &VT{K: "map", Proto: proto, KeyK: r.pick([]string{"str", "num"})}
+		v := &VT{K: "map", Proto: proto, KeyK: r.pick([]string{"str", "num"}), Dyn: r.chance(0.2)}
 		n := 1 + r.intn(4)
 		for i := 0; i < n; i++ {
 			if v.KeyK == "num" {
@@ -609,6 +633,17 @@ func (g *gen7) env() *Env7 {
 		b := &Field{Name: names[(off+i)%len(names)], V: g.value(1+r.intn(3), false)}
 		if goNameable(b.Name) && r.chance(0.5) {
 			b.Tag = 3
+		}
+		if b.V.K == "obj" {
+			// fields of a top-level object (a struct nested one level down) as Go ARRAYS, often
+			// with interface-typed elements: a struct without any nil-able field whose type
+			// still depends on the value
+			for _, f := range b.V.Fields {
+				if f.V.K == "list" && len(f.V.List) > 0 && !f.Ptr && !f.Maybe && !f.Nil && !f.NilC && f.V.Bad == "" && r.chance(0.3) {
+					f.V.Arr = true
+					f.V.Dyn = r.chance(0.6)
+				}
+			}
 		}
 		if b.V.K == "obj" && r.chance(0.3) {
 			b.Embed = true
